@@ -13,7 +13,8 @@
  *          | VIOL_ERRNUM0 | VIOL_NOMSG           (failure without error number / message)
  *          | CRASH sig=<n>|exit=<n> phase=<..>   (worker died: signal, sanitizer report (exit 66/67), assert abort)
  *          | WEDGE phase=<..> stmts_at_halt=<n> stmts_now=<m>   (halt requested, not answered within hard_ms)
- * and after a CRASH a line  STDERR <id> <hex of the worker's stderr for that case (sanitizer report)>.
+ * (before the SIGKILL the worker is asked by SIGUSR2 to print its stack: the site of the wedge)
+ * and after a CRASH or WEDGE a line  STDERR <id> <hex of the worker's stderr for that case (sanitizer report)>.
  *
  * Process structure: the parent forks a worker that runs the cases in order and stamps a shared page (case index,
  * phase, statement-callback heartbeat).  The parent polls: when a case exceeds soft_ms it sends SIGUSR1 — the worker's
@@ -63,7 +64,7 @@ static const char* phase_name[] = { "idle", "parse", "open", "run", "close-rtx",
 static long long now_ns (void) { struct timespec ts; clock_gettime(CLOCK_MONOTONIC, &ts); return (long long)ts.tv_sec * 1000000000LL + ts.tv_nsec; }
 
 /* ------------------------------------------------------------------ counting allocator */
-static size_t mem_used, mem_budget = (size_t)48 << 20, mem_blocks;
+static size_t mem_used, mem_budget = (size_t)16 << 20, mem_blocks;
 static void* m_alloc (hawk_mmgr_t* m, hawk_oow_t n)
 {
 	void* p;
@@ -86,7 +87,7 @@ static void name_to_bcs (const hawk_ooch_t* s, char* buf, size_t n)
 	size_t i = 0; if (s) for (; s[i] && i + 1 < n; i++) buf[i] = (s[i] < 128)? (char)s[i]: '?'; buf[i] = 0;
 	if (s && s[i]) buf[0] = 0; /* too long: refuse */
 }
-static const char* ok_cmds[] = { "cat", "echo a b c", "true", "false", "sort", "printf 'x y\\nz\\n'", NULL };
+static const char* ok_cmds[] = { "cat", "echo a b c", "echo -1", "true", "false", "sort", "printf 'x y\\nz\\n'", NULL };
 static hawk_ooi_t my_pipe (hawk_rtx_t* rtx, hawk_rio_cmd_t cmd, hawk_rio_arg_t* arg, void* data, hawk_oow_t count)
 {
 	if (cmd == HAWK_RIO_CMD_OPEN)
@@ -113,6 +114,17 @@ static hawk_ooi_t my_file (hawk_rtx_t* rtx, hawk_rio_cmd_t cmd, hawk_rio_arg_t* 
 /* ------------------------------------------------------------------ worker */
 static hawk_rtx_t* volatile cur_rtx;
 static void on_usr1 (int sig) { if (!sh->halt_seen) { sh->halt_seen = 1; sh->stmts_at_halt = sh->stmts; } if (cur_rtx) hawk_rtx_halt (cur_rtx); }
+#if defined(__SANITIZE_ADDRESS__)
+void __sanitizer_print_stack_trace (void);
+#endif
+/* the parent asks where an unanswered halt request is stuck just before it kills the worker: the stack goes to the stderr capture */
+static void on_usr2 (int sig)
+{
+	static const char m[] = "WEDGE-STACK\n"; if (write(2, m, sizeof(m) - 1) < 0) { }
+#if defined(__SANITIZE_ADDRESS__)
+	__sanitizer_print_stack_trace ();
+#endif
+}
 static void on_stmt (hawk_rtx_t* rtx, hawk_nde_t* nde, void* ctx) { sh->stmts++; }
 static hawk_rtx_ecb_t ecb = { NULL, on_stmt, NULL, NULL, NULL };
 
@@ -235,6 +247,7 @@ static void worker (size_t from, const char* scratch)
 	rl.rlim_cur = rl.rlim_max = 0; setrlimit(RLIMIT_CORE, &rl);
 	signal(SIGXFSZ, SIG_IGN); signal(SIGPIPE, SIG_IGN);
 	memset(&sa, 0, sizeof(sa)); sa.sa_handler = on_usr1; sigemptyset(&sa.sa_mask); sa.sa_flags = 0; /* like bin/hawk.c: a blocking read/write is interrupted (EINTR) */ sigaction(SIGUSR1, &sa, NULL);
+	sa.sa_handler = on_usr2; sigaction(SIGUSR2, &sa, NULL);
 	for (i = from; i < ncases; i++)
 	{
 		if (ftruncate(2, 0) == 0) lseek(2, 0, SEEK_SET);
@@ -297,8 +310,12 @@ int main (int argc, char** argv)
 			if (sh->phase != 0 && el > soft_ms + hard_ms)
 			{
 				long ci = sh->case_idx; int ph = sh->phase; long s0 = sh->stmts_at_halt, s1 = sh->stmts;
+				struct timespec t3 = { 0, 400 * 1000000 }; FILE* f; char buf[16384]; size_t n = 0;
+				kill(pid, SIGUSR2); nanosleep(&t3, NULL);
 				kill(pid, SIGKILL); waitpid(pid, &status, 0);
 				printf("RESULT %s WEDGE phase=%s stmts_at_halt=%ld stmts_now=%ld halt_seen=%d\n", cases[ci].id, phase_name[ph], s0, s1, (int)sh->halt_seen);
+				f = fopen(errpath, "rb"); if (f) { n = fread(buf, 1, sizeof(buf), f); fclose(f); }
+				printf("STDERR %s ", cases[ci].id); hexout(stdout, buf, n); printf("\n");
 				next = (size_t)ci + 1; ended = 2; break;
 			}
 		}
